@@ -735,6 +735,46 @@ impl<R: Reg> Interp<R> {
                 s.model.res[which] = pv;
                 self.stats.res_writes += 1;
             }
+            Op::ResView { w, rv, path, salt } => {
+                let metas = R::res_views();
+                if metas.is_empty() {
+                    self.stats.noops += 1;
+                    return Ok(());
+                }
+                let ri = idx(*rv, metas.len());
+                let meta = &metas[ri];
+                let salt = if meta.views.iter().any(|(_, m)| *m) { *salt } else { None };
+                let s = self.slot(*w);
+                let got = R::run_res_view(&mut s.real, ri, *path, salt);
+                if let Some(sh) = s.shadow.as_mut() {
+                    R::run_res_view(sh, ri, *path, salt);
+                }
+                let step = self.step;
+                let how = ["view_resources", "query(..).resources", "run_system resource views"][*path as usize % 3];
+                if got.len() != meta.views.len() {
+                    return Err(Fail { props: &["C15"], oracle: "resource-view", msg: format!("{how}: {} values for {} resource views", got.len(), meta.views.len()), step });
+                }
+                let s = self.slot(*w);
+                let mut writes = 0;
+                for ((ri_, mutable), (gi, (before, after))) in meta.views.iter().zip(&got) {
+                    let i = *ri_ as usize;
+                    if gi != ri_ || !before.ok || before.payload != s.model.res[i] || (s.model.res_serial[i] != 0 && before.serial != s.model.res_serial[i]) {
+                        return Err(Fail { props: &["C15"], oracle: "resource-view", msg: format!("{how} {:?}: the view of resource {i} reads {} (serial {:#x}); the resource of that type holds {} (serial {:#x})", meta.views, before.payload, before.serial, s.model.res[i], s.model.res_serial[i]), step });
+                    }
+                    if let (true, Some(salt)) = (*mutable, salt) {
+                        let want = R::res_norm(i, mutate(before.payload, salt));
+                        if after.payload != want {
+                            return Err(Fail { props: &["C15"], oracle: "resource-view", msg: format!("{how}: write through &mut view of resource {i} reads back {} instead of {want}", after.payload), step });
+                        }
+                        s.model.res[i] = want;
+                        writes += 1;
+                    }
+                }
+                self.stats.res_writes += writes;
+                if meta.views.len() >= 2 && salt.is_some() && meta.views.windows(2).any(|p| p[0].0 > p[1].0) {
+                    self.stats.res_multi += 1;
+                }
+            }
             Op::Eq { a, b } => {
                 let (a, b) = (*a as usize % NSLOTS, *b as usize % NSLOTS);
                 self.ensure(a);
